@@ -90,7 +90,7 @@ fn gcd(a: usize, b: usize) -> usize {
 
 /// all documents, in order
 pub fn walk_all(docs: &[Doc], limits: Limits) -> Vec<DocResult> {
-    walk_some(docs, limits, docs.len()).into_iter().map(|r| r.unwrap_or(DocResult { outcome: Outcome::NotRun("search stopped".into()), ms: 0, calls: Default::default() })).collect()
+    walk_some(docs, limits, docs.len()).into_iter().map(|r| r.unwrap_or(DocResult { outcome: Outcome::NotRun("search stopped".into()), ms: 0, calls: Default::default(), peak_bytes: 0, decoded_bytes: 0 })).collect()
 }
 
 fn custom_docs(thorough: bool, rng: &mut Rng) -> Vec<Planted> {
@@ -370,6 +370,25 @@ pub fn classify(p: &Planted, r: &DocResult) -> Option<(String, String)> {
     }
 }
 
+/// What a document may make the library allocate at one time: 32 MiB (the table for the largest accepted
+/// /Size, 10^6 entries, is 24 MB; weezl's LZW decoder takes 16 MiB per stream) plus 16 bytes per byte of the
+/// file and of the decoded stream data handed out. (The address-space limit of the child, 768 MiB, stays as
+/// the backstop for allocations that would take the machine down.)
+pub fn memory_allowance(file_len: u64, decoded: u64) -> u64 {
+    (32 << 20) + 16 * (file_len + decoded)
+}
+
+/// a failed walk, or a walk that returned but allocated out of proportion
+pub fn verdict(p: &Planted, r: &DocResult) -> Option<(String, String)> {
+    classify(p, r).or_else(|| {
+        let allowed = memory_allowance(p.bytes.len() as u64, r.decoded_bytes);
+        if r.outcome == Outcome::Returned && r.peak_bytes > allowed {
+            Some((format!("memory-out-of-proportion:{}", p.frag),
+                format!("peak allocation {} MiB for a file of {} bytes ({} bytes of decoded stream data); allowance {} MiB", r.peak_bytes >> 20, p.bytes.len(), r.decoded_bytes, allowed >> 20)))
+        } else { None }
+    })
+}
+
 /// walk one family of documents under every configuration and record the outcomes
 fn walk_family(or: &mut Oracle, family: &[Planted], configs: &[(bool, bool)], keep_first: usize, limits: Limits, seed: u64, thorough: bool, slowest: &mut u64, per_sig: &mut std::collections::BTreeMap<String, u32>) {
     let mut docs = vec![];
@@ -392,12 +411,17 @@ fn walk_family(or: &mut Oracle, family: &[Planted], configs: &[(bool, bool)], ke
         or.count(&format!("docs fragment={}", p.frag));
         or.count(&format!("config={}", cfg_name(*t, *c)));
         *slowest = (*slowest).max(r.ms);
+        or.count(&format!("peak allocation < {} MiB", match r.peak_bytes >> 20 { 0 => 1, 1..=3 => 4, 4..=15 => 16, 16..=31 => 32, 32..=63 => 64, 64..=255 => 256, _ => 1 << 20 }));
+        if std::env::var("VERIF_DEBUG").is_ok() && r.peak_bytes > (8 << 20) {
+            eprintln!("peak {} MiB (file {} bytes, decoded {}): {} [{}]", r.peak_bytes >> 20, p.bytes.len(), r.decoded_bytes, p.desc.chars().take(150).collect::<String>(), cfg_name(*t, *c));
+        }
         let key = format!("{}|{}", p.desc, cfg_name(*t, *c));
         or.case(&key, true, || json!({"doc": p.desc, "config": cfg_name(*t, *c), "outcome": format!("{:?}", r.outcome), "calls": r.calls.len()}));
         for (k, v) in &r.calls {
             *or.histogram.entry(format!("call {}", k)).or_insert(0) += *v;
         }
-        match classify(p, r) {
+        // memory in proportion to the file: the walk returned, but how much did it allocate at one time?
+        match verdict(p, r) {
             None => or.count("outcome=returned"),
             Some((sig, what)) => {
                 or.count(&format!("outcome={}", sig));
@@ -462,7 +486,7 @@ pub fn run(driver: &Driver, seed: u64, thorough: bool, replay: Option<&serde_jso
             let res = walk_all(&[Doc { bytes: p.bytes.clone(), tolerant: t, cached: c }], Limits { max_objects: r["max_objects"].as_u64().unwrap_or(24), time_limit_ms: 20_000, mem_limit_mb: 768, with_scan: true });
             let mut or = Oracle::new("c14.walk");
             or.case(&p.desc, true, || json!({"doc": p.desc, "outcome": format!("{:?}", res[0].outcome)}));
-            if let Some((sig, what)) = classify(&p, &res[0]) {
+            if let Some((sig, what)) = verdict(&p, &res[0]) {
                 or.fail(&sig, &format!("{} [{}]: {}", p.desc, cfg_name(t, c), what), r.clone());
             }
             rep.oracles.push(or);
